@@ -436,6 +436,7 @@ func (g *Gen) applyContract(v ssa.Value, ct *Contract, key string, c *ssa.CallCo
 		g.stHavoc(st, n, so)
 		g.recordWrite(n, nil)
 	}
+	g.havocScratch(st, g.modSet(ct, cpkg))
 	// results
 	ts := g.havocResults(v, c, st)
 	res := sig.Results()
@@ -1032,8 +1033,25 @@ func (g *Gen) pbGetter(v ssa.Value, c *ssa.CallCommon, st State) bool {
 	return false
 }
 
+// havocScratch forgets the scratch ghosts a call does not explicitly set.
+func (g *Gen) havocScratch(st State, keep map[string]bool) {
+	for n, gv := range g.cs.Ghosts {
+		if !gv.Scratch || keep["ghost."+n] {
+			continue
+		}
+		if _, used := g.stSorts["ghost."+n]; !used {
+			if g.curMods != nil {
+				g.curMods["ghost."+n] = nil
+			}
+			continue
+		}
+		g.stHavoc(st, "ghost."+n, rawSort(gv.Sort))
+	}
+}
+
 // havocNames havocs the given state components ("*struct:T" expands to all field heaps of T).
 func (g *Gen) havocNames(mods map[string]bool, st State) {
+	g.havocScratch(st, mods)
 	a := g.stGet(st, "alloc", SMath)
 	na := g.stHavoc(st, "alloc", SMath)
 	g.assume(app(">=", na, a))
